@@ -186,7 +186,13 @@ fn call_int(args: &[Object]) -> Result<Object, Error> {
         }
     };
 
-    Ok(Object::int(result))
+    match Object::checked_int(Some(result)) {
+        Some(result) => Ok(result),
+        None => Err(Error::ArgumentError(format!(
+            "{} is te groot voor een integer",
+            args[0]
+        ))),
+    }
 }
 
 /// Casts the given object to an object of type float
